@@ -3,7 +3,6 @@
 use crate::router::{base::Router, segments::RouteSegments};
 use crate::fang::{Fang, BoxedFPC};
 use crate::fang::handler::{Handler, IntoHandler};
-use crate::response::Content;
 use crate::Ohkami;
 use std::sync::Arc;
 
@@ -298,15 +297,8 @@ const _: () = {
                             = Box::leak(Box::new(self));
 
                         Handler::new(|_| Box::pin(async {
-                            let mut res = crate::Response::OK();
-                            {
-                                res.headers.set().ContentType(this.mime);
-                                res.content = Content::Payload({
-                                    let content: &'static [u8] = &this.content;
-                                    content.into()
-                                });
-                            }
-                            res
+                            let content: &'static [u8] = &this.content;
+                            crate::Response::OK().with_payload(this.mime, content)
                         }), #[cfg(feature="openapi")] {use crate::openapi;
                             openapi::Operation::with(openapi::Responses::new([(
                                 200,
